@@ -32,6 +32,8 @@ fn is_sorted(v: &[El]) -> bool {
 }
 
 struct Outcome {
+    /// the sort panicked (message); the other fields describe what it left behind
+    panicked: Option<String>,
     returned_cancelled: bool,
     out: Vec<El>,
     comparisons: u64,
@@ -52,11 +54,17 @@ fn sort_once(pool: Option<&rayon::ThreadPool>, input: &[El], cancel_at: Option<u
         }
         a.0 < b.0
     };
-    let returned_cancelled = match pool {
+    // every call of the subject is caught: a panic is a verdict, not the end of the check
+    let r = catch_unwind(AssertUnwindSafe(|| match pool {
         Some(p) => p.install(|| verif_par_quicksort(&mut v, less, &flag)),
         None => verif_par_quicksort(&mut v, less, &flag),
+    }));
+    let (returned_cancelled, panicked) = match r {
+        Ok(c) => (c, None),
+        Err(p) => (false, Some(crate::dom::panic_msg(&p))),
     };
     Outcome {
+        panicked,
         returned_cancelled,
         out: v,
         comparisons: calls.load(Ordering::Relaxed),
@@ -65,6 +73,15 @@ fn sort_once(pool: Option<&rayon::ThreadPool>, input: &[El], cancel_at: Option<u
 
 fn judge(acc: &mut Acc, family: &str, input: &[El], o: &Outcome, flag_raised: bool, describe: &dyn Fn() -> Value) {
     acc.transitions += 1;
+    if let Some(msg) = &o.panicked {
+        let msg = msg.clone();
+        acc.violation(&format!("C18/{family}/panicked"), "the sort panicked", &|| {
+            let mut d = describe();
+            d["panic"] = json!(msg);
+            d
+        });
+        return;
+    }
     if !is_perm(input, &o.out) {
         acc.violation(&format!("C18/{family}/not_a_permutation"), "the slice is not a permutation of its input after sorting", describe);
         return;
@@ -144,8 +161,10 @@ fn antiqsort_variant(n: usize, rule: u32, perm: u32) -> Vec<u32> {
         }
         s.val[x] < s.val[y]
     };
-    pool(1).install(|| verif_par_quicksort(&mut v, less, &flag));
-    let s = adv.into_inner().unwrap();
+    // (a panic of the sort while the adversary input is generated leaves a partially decided
+    // input, which is still a legal input; the panic itself shows when that input is sorted)
+    let _ = catch_unwind(AssertUnwindSafe(|| pool(1).install(|| verif_par_quicksort(&mut v, less, &flag))));
+    let s = adv.into_inner().unwrap_or_else(|e| e.into_inner());
     // the concrete input: position p of the initial arrangement held element order[p]
     order.iter().map(|&i| s.val[i as usize]).collect()
 }
@@ -454,21 +473,24 @@ pub fn run(tier: &str) -> ! {
             for (t, p) in &pools {
                 let mut v = items.clone();
                 let flag = AtomicBool::new(false);
-                let cancelled = p.install(|| {
-                    verif_par_quicksort(
-                        &mut v,
-                        |a, b| {
-                            if a.0 != b.0 {
-                                return a.0 > b.0;
-                            }
-                            if a.1 != b.1 {
-                                return a.1 < b.1;
-                            }
-                            a.2 < b.2
-                        },
-                        &flag,
-                    )
-                });
+                let cancelled = catch_unwind(AssertUnwindSafe(|| {
+                    p.install(|| {
+                        verif_par_quicksort(
+                            &mut v,
+                            |a, b| {
+                                if a.0 != b.0 {
+                                    return a.0 > b.0;
+                                }
+                                if a.1 != b.1 {
+                                    return a.1 < b.1;
+                                }
+                                a.2 < b.2
+                            },
+                            &flag,
+                        )
+                    })
+                }))
+                .unwrap_or(true); // a panic is reported like a spurious cancellation below
                 acc.evaluations += 1;
                 acc.transitions += 1;
                 acc.count(&format!("multi_thread_runs(threads={t})"), 1);
